@@ -3,6 +3,8 @@
 O (direct oracle, real classes only)
   * items of every type (type-directed generator) -> real `to_sml()` / `str()` -> real `Item.from_sml` -> same type structure and values
     (`_value` compared exactly, floats by IEEE bits, plus `encode()` bytes)
+  * big items (lists of 255..1000 members at several nesting levels, arrays / text of 257+ elements); A/J items constructed from `str`
+    over U+0000..U+00FF and the JIS X 0201 specials: not an encodable item, or the SML parses back to the same text
   * rejection stream: every single-token deletion and every type-name mutation of valid SML, every closing `>` (of every item class,
     alone and nested) replaced by `.`, `<`, a number, a quoted literal, a type word, `[`/`]` — must raise, except `.` for a list's `>` —, every single-character deletion
     and every truncation of valid SML (so: input ending inside an open quoted literal), random strings over the token alphabet and over a
@@ -343,13 +345,52 @@ def roundtrip_fails(tree):
     return None
 
 
+def str_item_fails(tag: str, text: str):
+    """A/J item constructed from a `str`.  None if the text is not an item at all (constructor or encode() raises) or if its SML parses back to
+    the same text; else (reason, sml)"""
+    cls = CLASSES[tag]
+    try:
+        it = cls(text)
+        enc = it.encode()
+    except Exception:  # noqa: BLE001 - not an encodable item: outside the property
+        return None
+    st, val = guarded(lambda: it.to_sml())
+    if st != "ok":
+        return ("print " + ("did not terminate" if st == "hang" else "raised " + type(val).__name__), None)
+    sml = val
+    st, val = guarded(lambda: Item.from_sml(sml))
+    if st == "hang":
+        return ("hang", sml)
+    if st == "err":
+        return ("parse raised " + hlib.errkind(val), sml)
+    if type(val) is not cls:
+        return (f"type {type(val).__name__} != {cls.__name__}", sml)
+    if val._value != it._value:
+        return (f"parsed text differs: {val._value!r}", sml)
+    try:
+        if val.encode() != enc:
+            return ("encode() differs", sml)
+    except Exception as exc:  # noqa: BLE001
+        return ("encode of the parsed item raised " + type(exc).__name__, sml)
+    return None
+
+
+def _not_item(tag: str, text: str) -> bool:
+    try:
+        CLASSES[tag](text).encode()
+        return False
+    except Exception:  # noqa: BLE001
+        return True
+
+
 def minimise(tree):
     """smallest failing sub-item: descend into a failing child, then ddmin the text / value list of the leaf"""
     while tree[0] == "L":
         sub = next((t for t in tree[1] if roundtrip_fails(t)), None)
         if sub is None:
             kept = hlib.ddmin(list(tree[1]), lambda xs: roundtrip_fails(("L", xs)) is not None)
-            return ("L", kept)
+            plain = ("L", [("L", [])] * len(kept))   # if only the member count matters, say so with the simplest members
+            return plain if roundtrip_fails(plain) else ("L", kept)
         tree = sub
     tag, val = tree
     if len(val) >= 2:
@@ -536,6 +577,12 @@ def run(a, res):
                 res.count(("replay", case["text"]))
                 if ans == "hang" or (case["kind"] == "accepts" and ans.startswith("ok")):
                     res.violate(v["class"], v["what"], case, actual=ans)
+            elif isinstance(case, dict) and case.get("kind") == "str-item":
+                text = "".join(chr(c) for c in case["codepoints"])
+                res.count(("replay", case["type"], text))
+                bad = str_item_fails(case["type"], text)
+                if bad:
+                    res.violate(v["class"], v["what"], case, actual=bad[0])
             elif isinstance(case, dict) and case.get("item"):
                 tree = parse_sexp(case["item"])
                 res.count(("replay", case["item"]))
@@ -585,6 +632,27 @@ def run(a, res):
         else:
             sp = [x for x in SPECIAL_DOUBLES if abs(x) <= FLT_MAX] + ([DBL_MAX, -DBL_MAX] if tag == "F8" else [])
             trees += [(tag, [])] + [(tag, [x]) for x in sp] + [(tag, sp)]
+    # big items: element counts around and beyond CPython's small-int cache (256) and well above — lists at several nesting levels
+    # (their `[n]` annotation is compared with the counted members), numeric / boolean arrays, binary and text of 257+ elements
+    big_trees = []
+    for n in (255, 256, 257, 258, 300, 1000) + ((2000,) if big else ()):
+        big_trees.append(("L", [("U1", [i % 256]) for i in range(n)]))
+    big_trees += [("L", [("L", [("L", []) for _ in range(257)])]),
+                  chain(3, ("L", [("A", b"x") for _ in range(257)])),
+                  ("L", [("A", b"head"), ("L", [gen_leaf(rng) for _ in range(300)]), ("U2", [257, 300, 1000])]),
+                  ("L", [gen_tree(rng, 2) for _ in range(260)]),
+                  ("L", [("L", [("I2", [i - 300]) for i in range(600)]), ("L", [("BOOLEAN", [bool(i & 1)]) for i in range(257)])])]
+    for tag in INT_TYPES:
+        lo, hi = BOUNDS[tag]
+        big_trees += [(tag, [rng.range(lo, hi) for _ in range(n)]) for n in (257, 1000)]
+    big_trees += [("F8", [gen_double(rng, "F8") for _ in range(300)]), ("F4", [gen_double(rng, "F4") for _ in range(257)]),
+                  ("BOOLEAN", [bool(rng.below(2)) for _ in range(257)]), ("BOOLEAN", [True] * 1000),
+                  ("B", rng.bytes(257)), ("B", rng.bytes(1000)),
+                  ("A", bytes(b for b in rng.bytes(600) if b != QUOTE)[:257]), ("A", bytes(0x61 + (i % 26) for i in range(1000))),
+                  ("A", bytes((i * 7) % 256 if (i * 7) % 256 != QUOTE else 0 for i in range(1000))),
+                  ("J", bytes(b for b in rng.bytes(900) if b != QUOTE and b not in JIS_SPECIAL)[:300]), ("J", bytes(0x41 + (i % 26) for i in range(1000)))]
+    trees += big_trees
+    res.bump("big_items", "count", len(big_trees))
     corpus_path = os.path.join(hlib.ROOT, "corpus", "C15.json")
     corpus = json.load(open(corpus_path)) if os.path.exists(corpus_path) else {"items": [], "texts": []}
     trees += [parse_sexp(x) for x in corpus.get("items", [])]
@@ -613,6 +681,8 @@ def run(a, res):
                     res.bump("text_byte_class", "quote" if b == QUOTE else "jis-special" if (lf[0] == "J" and b in JIS_SPECIAL) else
                              "printable" if 0x20 <= b <= 0x7E or b in (9, 11, 12) else "control" if b < 0x20 or b == 0x7F else "high")
         res.bump("nesting_depth", depth_of(tree))
+        nmax = max([len(tree[1])] + [len(lf[1]) for lf in leaves(tree, [])]) if tree[0] != "L" or tree[1] else 0
+        res.bump("max_element_count", "0" if nmax == 0 else "1-9" if nmax < 10 else "10-255" if nmax < 256 else "256" if nmax == 256 else "257-999" if nmax < 1000 else "1000+")
         try:
             item = build(tree)
             text = item.to_sml()
@@ -650,6 +720,39 @@ def run(a, res):
             res.bump("parse_printed_outcome", ans.split(" ")[0] + (" " + ans.split(" ")[1] if ans.startswith("err") else ""))
     hlib.compare_batch(res, drv, f"to_sml() vs Model.Sml.toSml (defects={flags})", cases, lines, answers)
     hlib.compare_batch(res, drv, "Item.from_sml vs Model.Sml.parse on printed text", pcases, plines, panswers)
+
+    # ------------------------------------------------------------ A'. A/J items constructed from `str` (O)
+    # every character of U+0000..U+00FF, the JIS X 0201 specials (yen, overline, half-width katakana) and a few others: either the text is
+    # not an encodable item (constructor / encode() raises — then nothing is claimed) or its SML parses back to the same text
+    cps = list(range(0x100)) + [0xA5, 0x203E] + list(range(0xFF61, 0xFFA0)) + [0x100, 0x131, 0x20AC, 0x3000, 0xFF60, 0xFFA0]
+    str_texts = []
+    for c in cps:
+        if c == QUOTE and flags[0] == "1":
+            continue
+        str_texts += [chr(c), "a" + chr(c) + "b", chr(c) * 2, "\n" + chr(c)]
+    str_texts += ["C:\\x", "C:\\dir\\file~1.txt", "~/x", "a\\\\b", "~", "\\", "x~y\\z", "\u00a5\\", "\u203e~", "\uff61\\\uff9f", "abc\\", "\\abc"]
+    for _ in range(2000 if big else 300):
+        str_texts.append("".join(chr(rng.choice(cps)) if rng.chance(1, 2) else chr(rng.range(0x20, 0x7E)) for _ in range(rng.range(1, 8))).replace('"', "'" if flags[0] == "1" else '"'))
+    n_str = 0
+    shown = 0
+    for tag in ("J", "A"):
+        for text in str_texts:
+            bad = str_item_fails(tag, text)
+            n_str += 1
+            res.count(("str-item", tag, text))
+            res.bump("str_built_items", tag + (":not-an-item" if bad is None and _not_item(tag, text) else ":ok" if bad is None else ":fails"))
+            if bad and bad[0] == "hang":
+                note_hang(bad[1] or text, "SML of a str-built item")
+            elif bad:
+                jis_known = tag == "J" and flags[1] == "1" and any(ord(ch) in (0xA5, 0x203E) or 0xFF61 <= ord(ch) <= 0xFF9F for ch in text)
+                klass = "c15-jis8-nonascii" if jis_known else "roundtrip-str-built"
+                shown += 1
+                if shown <= 8:
+                    res.violate(klass, f"SML text of Item{tag}(<str>) does not parse back to the same text ({bad[0]})",
+                                {"kind": "str-item", "type": tag, "codepoints": [ord(ch) for ch in text], "text": bad[1]},
+                                expected=repr(text), actual=bad[0])
+    res.exhaustive_parts.append(f"A and J items constructed from str: every character of U+0000..U+00FF and the JIS X 0201 specials alone and in three "
+                                f"contexts, backslash/tilde texts, random mixes: {n_str} texts")
 
     # ------------------------------------------------------------ B. rejection stream
     cases, lines, answers = [], [], []
